@@ -165,3 +165,24 @@ package intdataplane
 //@   ensures (exists k types.HostEndpointID :: (k in m.hepIPs) != old(k in m.hepIPs)) ==> m.dirty
 //@   ensures old(m.dirty) ==> m.dirty
 //@   assigns m.dirty, m.wepIPs[*], m.hepIPs[*]
+
+//@ -- ---------------------------------------------------------------- C44: preferred endpoint per interface
+//@ -- Preference between endpoints claiming one interface name is the lexicographic order on
+//@ -- (orchestrator, workload, endpoint) - a strict total order, hence the winner is the same whatever the
+//@ -- order in which the endpoints are seen.
+//@ spec func wlLess(a types.WorkloadEndpointID, b types.WorkloadEndpointID) bool =
+//@      a.OrchestratorId < b.OrchestratorId || (a.OrchestratorId == b.OrchestratorId &&
+//@        (a.WorkloadId < b.WorkloadId || (a.WorkloadId == b.WorkloadId && a.EndpointId < b.EndpointId)))
+//@ func wlIdsAscending
+//@   property C44
+//@   requires id1 != nil && id2 != nil
+//@   ensures res == wlLess(*id1, *id2)
+//@   assigns nothing
+//@ lemma wlLess_irreflexive: forall a types.WorkloadEndpointID :: !wlLess(a, a)
+//@   property C44
+//@ lemma wlLess_asymmetric: forall a types.WorkloadEndpointID, b types.WorkloadEndpointID :: wlLess(a, b) ==> !wlLess(b, a)
+//@   property C44
+//@ lemma wlLess_transitive: forall a types.WorkloadEndpointID, b types.WorkloadEndpointID, c types.WorkloadEndpointID :: wlLess(a, b) && wlLess(b, c) ==> wlLess(a, c)
+//@   property C44
+//@ lemma wlLess_total: forall a types.WorkloadEndpointID, b types.WorkloadEndpointID :: a != b ==> wlLess(a, b) || wlLess(b, a)
+//@   property C44
